@@ -106,6 +106,64 @@ def gen_history(rng, nops):
     return {"nodeid": hx(sc.NODEID), "ops": ops, "kind": kind}
 
 
+OVERRUNS = [1, 2, 4, 5, 11, 12, 13, 40]
+
+
+def gen_upload_history(rng):
+    """An immutable upload through the real BucketWriter: allocate (the lease is written at once), data writes
+    while the upload is open — in bounds, ending exactly at the allocated size, and overrunning it by a few
+    bytes —, close, then lease operations with the uploader's own secrets."""
+    ops = []
+    now = rng.randrange(0, 2000)
+    pool = [[sec(rng), sec(rng)] for _ in range(3)]
+    mine = pool[0]
+    n = 0
+    if rng.random() < 0.35:
+        # the bucket already holds a closed share with some leases
+        v = rng.choice([1, 2])
+        ls = [(1, now + RENEWAL + 7, unhx(r), unhx(c)) for (r, c) in rng.sample(pool, rng.randrange(1, 3))]
+        ops.append(["put", 0, sc.rle(sc.fabricate_immutable(v, sc.rand_bytes(rng, rng.randrange(0, 30)), ls))])
+        n = 1
+    size = rng.choice([0, 0, 1, 1, 2, 5, 12, 13, 30, 100])
+    ops += [["order"], ["alloc", now, 10 ** 12, n, size, mine[0], mine[1]], ["idump"]]
+    ptr = 0
+    steps = rng.randrange(2, 7)
+    for k in range(steps):
+        r = rng.random()
+        if r < 0.38:
+            over = rng.choice(OVERRUNS)
+            start = ptr if rng.random() < 0.7 else max(0, size - rng.randrange(0, 3))
+            start = max(start, ptr)
+            ln = size - start + over
+            ops.append(["bwrite", n, start, hx(sc.rand_bytes(rng, ln))])      # refused: ends `over` bytes past the end
+        elif r < 0.55 and ptr < size:
+            ops.append(["bwrite", n, ptr, hx(sc.rand_bytes(rng, size - ptr))])   # ends exactly at the allocated size
+            ptr = size
+        elif ptr < size:
+            ln = rng.randrange(1, size - ptr + 1)
+            ops.append(["bwrite", n, ptr, hx(sc.rand_bytes(rng, ln))])
+            ptr += ln
+        else:
+            over = rng.choice(OVERRUNS)
+            ops.append(["bwrite", n, size, hx(sc.rand_bytes(rng, over))])      # a write starting at the very end
+        ops.append(["idump"])
+    ops += [["bclose", n], ["leases"], ["dump"]]
+    for _ in range(rng.randrange(2, 7)):
+        now += rng.choice([0, 1, 3600, 40 * 86400])
+        r = rng.random()
+        if r < 0.45:
+            p = mine if rng.random() < 0.8 else rng.choice(pool)
+            ops += [["order"], ["addlease", now, 10 ** 12, p[0], p[1]]]
+        elif r < 0.8:
+            ops += [["order"], ["renew", now, mine[0] if rng.random() < 0.8 else sec(rng)]]
+        elif r < 0.9:
+            ops.append(["cancel", n, rng.choice(["secret", "crawler"]), rng.choice(pool)[1]])
+        else:
+            ops.append(["leases"])
+    ops += [["leases"], ["dump"]]
+    return {"nodeid": hx(sc.NODEID), "ops": ops, "kind": "immupload"}
+
+
 def container_version(raw):
     """('mutable'|'immutable', schema version) from the file bytes (written from the format description)"""
     if raw[:26] == b"Tahoe mutable container v1":
@@ -141,8 +199,27 @@ class Monitor:
             self.opi += 1
             if op[0] in ("addlease", "renew", "rtw", "cancel"):
                 info["raw"] = impl.raw()
+            if op[0] == "bwrite":
+                info["inc"] = impl.raw_incoming()
             return
         kind = op[0]
+        if kind == "bwrite":
+            # leases survive share data writes: after EVERY data write of an open immutable upload, accepted or
+            # refused, every lease record of the container is byte-for-byte what it was
+            n = op[1]
+            r0, r1 = info["inc"].get(n), impl.raw_incoming().get(n)
+            exc = info.get("exc")
+            ctx.count("bwrite:%s" % (type(exc).__name__ if exc else "ok"))
+            if r0 is not None and r1 is not None:
+                size = len(r0) - 12 - 72 * len(sc.parse_leases(r0))
+                end = op[2] + len(unhx(op[3]))
+                ctx.count("bwrite:" + ("in-bounds" if end < size else "ends-at-size" if end == size else "overrun-%d" % (end - size)))
+                if sc.parse_leases(r1) != sc.parse_leases(r0) or r1[12 + size:] != r0[12 + size:]:
+                    self.viol("a share data write changed a lease record of the immutable container",
+                              "lease-changed-by-data-write:immutable",
+                              {"share": n, "allocated_size": size, "write_end": end, "accepted": exc is None})
+                ctx.case((self.hi, self.opi))
+            return
         if kind not in ("addlease", "renew", "rtw", "cancel"):
             return
         raw0, raw1 = info["raw"], impl.raw()
@@ -260,7 +337,10 @@ def run(ctx):
         else:
             hists = []
             for i in range(ctx.budget(150, 12000)):
-                hists.append(gen_history(ctx.rng, ctx.rng.choice([4, 10, 25])))
+                if i % 4 == 3:
+                    hists.append(gen_upload_history(ctx.rng))
+                else:
+                    hists.append(gen_history(ctx.rng, ctx.rng.choice([4, 10, 25])))
         impl_outs, lines = [], []
         for hi, h in enumerate(hists):
             ctx.count("kind:" + h.get("kind", "?"))
